@@ -7,6 +7,7 @@ import (
 	"go/ast"
 	"go/token"
 	"go/types"
+	"strings"
 )
 
 func init() { register("C20", false, checkC20) }
@@ -58,7 +59,7 @@ func checkC20(c *Ctx) {
 	c.Rule("C20.R6", "model evaluation: a text (PROJ.4 with competing keys k/k_0, units/to_meter, ellps/a, datum/towgs84 in either order; a projected WKT) parsed with every ranged-over map walked in insertion order and again in the reverse order gives identical references: the result of a parse does not depend on Go's unspecified map order")
 	c.Rule("C20.R7", "model evaluation: a datum shift of three and of seven values written as TOWGS84[…] and as +towgs84=… is stored with one element per value written, in order, and identically from both spellings")
 	c.Rule("C20.R5", "model evaluation of SR.Equal on parsed references (reflection described by go/types, ULP comparison of two generic values true exactly for identical terms): true for two parses of one text in both argument orders; false — never a panic — when a float (first or last), a set/unset (NaN) marker, a string, a flag, a datum-shift value, the length of the datum-shift list, a nested pointer's nil-ness or a float behind a nested pointer differs")
-	c.Rule("C20.R4", "NewTransform returns the nil (identity) transformer on exactly the paths where Equal is true")
+	c.Rule("C20.R4", "model evaluation with SR.Equal as an oracle: NewTransform between parsed references returns the nil (identity) transformer and no error exactly when Equal, asked about the source and the destination, answers true")
 	p := c.P.Pkg("proj")
 	if p == nil {
 		c.Unk("C20.R1", "proj", token.NoPos, "package not loaded")
@@ -80,66 +81,87 @@ func checkC20(c *Ctx) {
 func (a *c20) identity() {
 	c := a.c
 	nt := c.P.Method("proj", "SR", "NewTransform")
-	fd := c.P.Decl(nt)
-	if fd == nil {
-		c.Unk("C20.R4", "proj.(*SR).NewTransform", token.NoPos, "API anchor does not resolve")
+	equal := c.P.Method("proj", "SR", "Equal")
+	if c.P.Decl(nt) == nil || c.P.Decl(equal) == nil {
+		c.Unk("C20.R4", "proj.(*SR).NewTransform", token.NoPos, "API anchors (NewTransform, Equal) do not resolve")
 		return
 	}
-	recv := receiverVar(a.info, fd)
-	dest := paramVars(a.info, fd.Type)[0]
-	equal := c.P.Method("proj", "SR", "Equal")
-	msg := ""
-	var pos token.Pos = fd.Pos()
-	seenEqualNil := false
-	cl := &FactsClient{}
-	cl.OnBranch = func(cond ast.Expr, truth bool, s Facts) Facts {
-		for _, at := range conjuncts(cond, truth) {
-			call, ok := unparen(at.E).(*ast.CallExpr)
-			if !ok || callee(a.info, call) != equal || len(call.Args) < 1 {
-				continue
-			}
-			sel, ok := unparen(call.Fun).(*ast.SelectorExpr)
-			if !ok {
-				continue
-			}
-			x, y := objOf(a.info, sel.X), objOf(a.info, call.Args[0])
-			if (x == recv && y == dest) || (x == dest && y == recv) {
-				if at.Truth {
-					s["equal"] = true
-				} else {
-					s["notequal"] = true
+	cons, pos := c.P.FuncName(nt)+"#identity", c.P.Decl(nt).Pos()
+	m, parse := newC20m(c)
+	if m == nil {
+		c.Unk("C20.R4", cons, pos, "proj.Parse does not resolve")
+		return
+	}
+	// Equal is an oracle here (what it decides is C20.R5's matter): NewTransform is interpreted on
+	// pairs of parsed references with Equal answering true and false, and must return the nil
+	// transformer exactly when the answer was true — asked about these two references
+	texts := []string{
+		"+proj=longlat +a=P7 +rf=P8 +no_defs",
+		"+proj=merc +lon_0=P4 +k_0=P13 +x_0=P5 +y_0=P6 +a=P7 +rf=P8 +no_defs",
+		"+proj=lcc +lat_1=P1 +lat_2=P2 +lat_0=P3 +lon_0=P4 +x_0=P5 +y_0=P6 +a=P7 +rf=P8 +towgs84=P9,P10,P11 +no_defs",
+	}
+	var refs []*oStruct
+	for _, t := range texts {
+		sr, why := m.run(parse, t)
+		if why != "" {
+			c.Unk("C20.R4", cons, pos, "a reference text is not interpretable: %s", why)
+			return
+		}
+		refs = append(refs, sr)
+	}
+	inner := m.it.stub
+	answer := false
+	var askedOf [][2]oval
+	m.it.stub = func(f *types.Func, recv oval, args []oval) ([]oval, bool) {
+		if f == equal && len(args) >= 1 {
+			askedOf = append(askedOf, [2]oval{recv, args[0]})
+			return []oval{oBool(answer)}, true
+		}
+		return inner(f, recv, args)
+	}
+	defer func() { m.it.stub = inner }()
+	bad, unk := "", ""
+	runs := 0
+	for i, sa := range refs {
+		for k, sb := range refs {
+			for _, ans := range []bool{true, false} {
+				if bad != "" || unk != "" {
+					break
+				}
+				answer, askedOf = ans, nil
+				runs++
+				res, why := m.it.Call(nt, oPtr{sa}, []oval{oPtr{sb}}, 0)
+				what := fmt.Sprintf("NewTransform from reference %d to reference %d with Equal answering %v", i+1, k+1, ans)
+				switch {
+				case strings.HasPrefix(why, "panic:"):
+					bad = what + " panics: " + why
+				case why != "" || len(res) != 2:
+					unk = what + " is not interpretable: " + why
+				default:
+					errNil, okE := oEqual(res[1], oNil{})
+					tNil, okT := oEqual(res[0], oNil{})
+					if !okE || !okT {
+						unk = fmt.Sprintf("%s returns (%s, %s)", what, showVal(res[0]), showVal(res[1]))
+						break
+					}
+					about := false
+					for _, q := range askedOf {
+						about = about || (sameCell(q[0], oPtr{sa}) && sameCell(q[1], oPtr{sb})) || (sameCell(q[0], oPtr{sb}) && sameCell(q[1], oPtr{sa}))
+					}
+					switch {
+					case ans && !(tNil && errNil) && about:
+						bad = "a real transformer (or an error) is returned although the two references are Equal: the identity must be the nil transformer"
+					case ans && !(tNil && errNil):
+						bad = "Equal is not asked about the source and the destination, so equal references do not short-circuit to the nil transformer"
+					case !ans && tNil && errNil:
+						bad = "the identity (nil) transformer is returned for references that Equal does not hold equal"
+					case !ans && !errNil:
+						bad = what + " returns an error for two valid references"
+					}
 				}
 			}
 		}
-		return s
 	}
-	cl.OnReturn = func(r *ast.ReturnStmt, s Facts) {
-		if r == nil || len(r.Results) != 2 {
-			return
-		}
-		nilT := isNilConst(a.info, r.Results[0])
-		nilE := isNilConst(a.info, r.Results[1])
-		switch {
-		case nilT && nilE:
-			if !s["equal"] && msg == "" {
-				msg, pos = "the identity (nil) transformer is returned on a path where the references were not found Equal", r.Pos()
-			}
-			if s["equal"] {
-				seenEqualNil = true
-			}
-		case !nilT && s["equal"] && msg == "":
-			msg, pos = "a real transformer is returned although the references are Equal", r.Pos()
-		}
-	}
-	fl := &Flow[Facts]{C: cl, Info: a.info}
-	fl.Run(fd.Body, Facts{})
-	if msg == "" && !seenEqualNil {
-		msg = "Equal references do not short-circuit to the nil transformer"
-	}
-	if msg != "" {
-		c.Bad("C20.R4", c.P.FuncName(nt)+"#identity", pos, "%s", msg)
-	} else {
-		c.OK("C20.R4", c.P.FuncName(nt)+"#identity", fd.Pos(), "nil transformer exactly when Equal")
-	}
-	_ = fmt.Sprint
+	c.Evals(runs)
+	report3(c, "C20.R4", cons, pos, bad, unk, fmt.Sprintf("nil transformer exactly when Equal holds of the two references (%d runs over three references with Equal as an oracle)", runs))
 }
